@@ -387,7 +387,18 @@ func runParent(ck *Check, tier string, seed uint64, only []int) int {
 			defer func() { <-sem }()
 			remaining := sh.cases
 			attempt := 0
+			hangs := 0
 			for len(remaining) > 0 {
+				if hangs >= 2 {
+					// every hang costs a full watchdog period; two in one shard are evidence
+					// enough, the rest of the shard is not run
+					mu.Lock()
+					agg.Inconclusive += len(remaining)
+					agg.Evaluations += len(remaining)
+					agg.Notes["not run: shard abandoned after two watchdog kills"] += len(remaining)
+					mu.Unlock()
+					break
+				}
 				attempt++
 				results, inflight, died, diag := runWorker(ck, tier, seed, sh.fl, remaining, workdir, fmt.Sprintf("s%d_%d", si, attempt), timeout)
 				mu.Lock()
@@ -396,6 +407,9 @@ func runParent(ck *Check, tier string, seed uint64, only []int) int {
 					r.Flavour = sh.fl
 					agg.add(r, 5)
 					done[r.Index] = true
+				}
+				if died && diag.watchdog {
+					hangs++
 				}
 				if died && inflight >= 0 {
 					agg.Died++
